@@ -214,6 +214,49 @@ UNIT = dict(
          methods={'initialize_block': 'XV_INIT_BLOCK_M'}, members=['total_number_of_hes', 'he_block'],
          post_subst=[(r'total_number_of_hes', 'total_number_of_hps', 'member_alias'), (r'he_block', 'hp_block', 'member_alias2')],
          must_fire={'subst:new_block': 1, 'A_FADD': 1, 'A_LOAD': 1, 'A_STORE': 1, 'call:std::max': 1}),
+    # ---- dynamic strategy: gather over the in-object array and the chained blocks (the template is lowered once per block type) ----
+    dict(id='hp_blk_begin', file=HPI, sig=r'const hazard_pointer\* begin\(\) const', which=1, c_sig='static const struct slot* hp_blk_begin(const struct hpblock* self)',
+         types={'const hazard_pointer*': 'const struct slot*'}, must_fire={'cast': 1}),
+    dict(id='hp_blk_end', file=HPI, sig=r'const hazard_pointer\* end\(\) const', which=1, c_sig='static const struct slot* hp_blk_end(const struct hpblock* self)',
+         self_calls={'begin': 'hp_blk_begin'}, members=['size'], must_fire={'self_call:begin': 1, 'member:size': 1}),
+    dict(id='hp_blk_next_block', file=HPI, sig=r'const hazard_pointer_block\* next_block\(\) const', which=0, c_sig='static const struct hpblock* hp_blk_next_block(const struct hpblock* self)',
+         members=['next'], must_fire={'member:next': 1}),
+    dict(id='hp_tcb_next_block', file=HPI, sig=r'const hazard_pointer_block\* next_block\(\) const', which=1, c_sig='static const struct hpblock* hp_tcb_next_block(const struct tcb* self)',
+         members=['hp_block'], must_fire={'A_LOAD': 1}),
+    dict(id='hp_dyn_gather_blk', file=HPI, sig=r'template <typename T>\s*static void gather_protected_pointers\(const T& block,\s*std::vector<const detail::deletable_object\*>& protected_ptrs\)',
+         c_sig='static void hp_dyn_gather_blk(const struct hpblock* block_p, struct vec* protected_ptrs)',
+         subst=[(r'base::gather_protected_pointers\(', 'hp_gather_range(', 'base_gather'), (r'\bblock\b', '(*block_p)', 'block_ref')],
+         methods={'begin': 'HP_BLK_begin', 'end': 'HP_BLK_end', 'next_block': 'HP_BLK_next_block'}, calls={'gather_protected_pointers': 'HP_DYN_GATHER_BLK'},
+         must_fire={'subst:base_gather': 1, 'subst:block_ref': 3, 'call:gather_protected_pointers': 1, 'method:next_block': 1}),
+    dict(id='hp_dyn_gather_tcb', file=HPI, sig=r'template <typename T>\s*static void gather_protected_pointers\(const T& block,\s*std::vector<const detail::deletable_object\*>& protected_ptrs\)',
+         c_sig='static void hp_dyn_gather_tcb(const struct tcb* block_p, struct vec* protected_ptrs)',
+         subst=[(r'base::gather_protected_pointers\(', 'hp_gather_range(', 'base_gather'), (r'\bblock\b', '(*block_p)', 'block_ref')],
+         methods={'begin': 'HP_TCB_begin', 'end': 'HP_TCB_end', 'next_block': 'HP_TCB_next_block'}, calls={'gather_protected_pointers': 'HP_DYN_GATHER_BLK'},
+         must_fire={'subst:base_gather': 1, 'subst:block_ref': 3, 'call:gather_protected_pointers': 1, 'method:next_block': 1}),
+    dict(id='hp_dyn_tcb_gather', file=HPI, sig=r'void gather_protected_pointers\(std::vector<const detail::deletable_object\*>& protected_ptrs\) const', which=1,
+         c_sig='static void hp_dyn_tcb_gather(const struct tcb* self, struct vec* protected_ptrs)', calls={'gather_protected_pointers': 'HP_DYN_GATHER_TCB'},
+         must_fire={'call:gather_protected_pointers': 1}),
+    dict(id='he_blk_begin', file=HEI, sig=r'const hazard_era\* begin\(\) const', which=1, c_sig='static const struct slot* he_blk_begin(const struct hpblock* self)',
+         types={'const hazard_era*': 'const struct slot*'}, must_fire={'cast': 1}),
+    dict(id='he_blk_end', file=HEI, sig=r'const hazard_era\* end\(\) const', which=1, c_sig='static const struct slot* he_blk_end(const struct hpblock* self)',
+         self_calls={'begin': 'he_blk_begin'}, members=['size'], must_fire={'self_call:begin': 1, 'member:size': 1}),
+    dict(id='he_blk_next_block', file=HEI, sig=r'const hazard_eras_block\* next_block\(\) const', which=0, c_sig='static const struct hpblock* he_blk_next_block(const struct hpblock* self)',
+         members=['next'], must_fire={'member:next': 1}),
+    dict(id='he_tcb_next_block', file=HEI, sig=r'const hazard_eras_block\* next_block\(\) const', which=1, c_sig='static const struct hpblock* he_tcb_next_block(const struct tcb* self)',
+         members=['he_block'], post_subst=[(r'he_block', 'hp_block', 'member_alias2')], must_fire={'A_LOAD': 1}),
+    dict(id='he_dyn_gather_blk', file=HEI, sig=r'template <typename T>\s*static void gather_protected_eras\(const T& block, std::vector<era_t>& protected_eras\)',
+         c_sig='static void he_dyn_gather_blk(const struct hpblock* block_p, struct vec* protected_eras)',
+         subst=[(r'base::gather_protected_eras\(', 'he_gather_range(', 'base_gather'), (r'\bblock\b', '(*block_p)', 'block_ref')],
+         methods={'begin': 'HE_BLK_begin', 'end': 'HE_BLK_end', 'next_block': 'HE_BLK_next_block'}, calls={'gather_protected_eras': 'HE_DYN_GATHER_BLK'},
+         must_fire={'subst:base_gather': 1, 'subst:block_ref': 3, 'call:gather_protected_eras': 1, 'method:next_block': 1}),
+    dict(id='he_dyn_gather_tcb', file=HEI, sig=r'template <typename T>\s*static void gather_protected_eras\(const T& block, std::vector<era_t>& protected_eras\)',
+         c_sig='static void he_dyn_gather_tcb(const struct tcb* block_p, struct vec* protected_eras)',
+         subst=[(r'base::gather_protected_eras\(', 'he_gather_range(', 'base_gather'), (r'\bblock\b', '(*block_p)', 'block_ref')],
+         methods={'begin': 'HE_TCB_begin', 'end': 'HE_TCB_end', 'next_block': 'HE_TCB_next_block'}, calls={'gather_protected_eras': 'HE_DYN_GATHER_BLK'},
+         must_fire={'subst:base_gather': 1, 'subst:block_ref': 3, 'call:gather_protected_eras': 1, 'method:next_block': 1}),
+    dict(id='he_dyn_tcb_gather', file=HEI, sig=r'void gather_protected_eras\(std::vector<era_t>& protected_eras\) const', which=1,
+         c_sig='static void he_dyn_tcb_gather(const struct tcb* self, struct vec* protected_eras)', calls={'gather_protected_eras': 'HE_DYN_GATHER_TCB'},
+         must_fire={'call:gather_protected_eras': 1}),
   ],
   runs=[
     # reclaim_nodes (real text) against an arbitrary sorted vector: the contract used as a stub in the *_scan / *_dtor runs below
